@@ -1,6 +1,7 @@
 import MirModel.Segment
 import MirProofs.Lemmas.Segment
 import MirProofs.Lemmas.SegmentReal
+import MirProofs.Lemmas.SegmentText
 /-!
   C16 — segment labelling scores equal their clustering-index definitions.
 
@@ -200,5 +201,211 @@ example : ([['V', 'e'], ['C', 'H']].map (List.map Char.toLower) = [['v', 'e'], [
     frameIndices [(0, 2), (2, 4)] [['V', 'e'], ['C', 'H']] 1 = [1, 1, 0, 0] ∧
     frameIndices [(0, 2), (2, 4)] [['v', 'e'], ['C', 'h']] 1 = [1, 1, 0, 0] ∧
     pairwiseIdx [1, 1, 0, 0] [0, 1, 1, 1] 1 = .ok (.val (1/3), .val (1/2), .val (2/5)) := by decide +kernel
+
+/-! ### textbook forms of the entropy-based scores over the reals
+
+  Notation (definitions in `MirProofs/Lemmas/SegmentText.lean`): for frame-label index sequences of length `n`,
+  `margP y c = n_c / n`, `jointP yr ye x y = n_xy / n`,
+  `shannon y = −Σ_c p_c log p_c` (nats), `condEntropy2 yr ye = −Σ_x Σ_y p_xy log₂(p_xy / p_x)` (= H₂(ye | yr), bits),
+  `miSum yr ye` = the MI double sum (`mi_textbook`), `miSpecial` = the code's early return (both sides one
+  cluster, or both empty), `emiText` = the hypergeometric expectation of MI written with binomials. -/
+
+/-- **entropy_textbook.** `_entropy(labels)` — which the code evaluates as `−Σ (n_c/n)·(log n_c − log n)` over
+    the non-empty classes — is the Shannon entropy `−Σ_c p_c log p_c`, `p_c = n_c / n`, over the reals; an empty
+    labelling gets the code's conventional `1.0`. -/
+theorem entropy_textbook (y : List Nat) :
+    entropyIdx (α := ℝ) y =
+      if y.length = 0 then 1
+      else -((classes y).map fun c =>
+        ((y.count c : ℝ) / (y.length : ℝ)) * Real.log ((y.count c : ℝ) / (y.length : ℝ))).sum :=
+  entropyIdx_real y
+
+/-- The Shannon entropy is non-negative, and positive exactly when there are at least two clusters. -/
+theorem entropy_nonneg_pos_iff (y : List Nat) :
+    0 ≤ shannon y ∧ (0 < shannon y ↔ 1 < (classes y).length) :=
+  ⟨shannon_nonneg y, shannon_pos_iff y⟩
+
+example : entropyIdx (α := ℝ) [0, 0, 1, 1] = Real.log 2 := by
+  have hc : classes [0, 0, 1, 1] = [0, 1] := by decide +kernel
+  rw [entropy_textbook, hc]
+  have h2 : Real.log ((1 : ℝ) / 2) = -Real.log 2 := by
+    rw [one_div, Real.log_inv]
+  norm_num [h2]
+  ring
+
+example : entropyIdx (α := ℝ) [] = 1 := by rw [entropy_textbook]; simp
+
+/-- **nmi_textbook.** Outside the early return, `_normalized_mutual_info_score` over the reals is
+    `MI / max(√(H(ref)·H(est)), 1e-10)`: numerator the textbook MI, denominator the geometric mean of the two
+    Shannon entropies floored at `1e-10` (the code's `max(…, 1e-10)`). -/
+theorem nmi_textbook (yr ye : List Nat) (h : yr.length = ye.length) (hs : ¬ miSpecial yr ye) :
+    (nmiIdx (α := ℝ) yr ye).1 =
+      miSum yr ye / max (Real.sqrt (shannon yr * shannon ye)) (1 / 10 ^ 10) := by
+  rw [nmiIdx_real h hs]
+
+/-- When the floor is not active (the geometric mean of the entropies is at least `1e-10`),
+    NMI is exactly `MI / √(H(ref)·H(est))`. -/
+theorem nmi_textbook_unfloored (yr ye : List Nat) (h : yr.length = ye.length) (hs : ¬ miSpecial yr ye)
+    (hf : (1 : ℝ) / 10 ^ 10 ≤ Real.sqrt (shannon yr * shannon ye)) :
+    (nmiIdx (α := ℝ) yr ye).1 = miSum yr ye / Real.sqrt (shannon yr * shannon ye) := by
+  rw [nmi_textbook yr ye h hs, max_eq_left hf]
+
+/-- NMI / AMI early return: both labellings one cluster, or both empty, give `1.0` (at every number type). -/
+theorem nmi_ami_special {α : Type} [Transc α] (yr ye : List Nat) (hs : miSpecial yr ye) :
+    (nmiIdx (α := α) yr ye).1 = Transc.ofNat 1 ∧ (amiIdx (α := α) yr ye).1 = Transc.ofNat 1 := by
+  rw [nmiIdx_special hs, amiIdx_special hs]
+  exact ⟨rfl, rfl⟩
+
+example : ¬ miSpecial [0, 0, 1, 1] [0, 1, 1, 1] ∧ miSpecial [5, 5] [1, 1] ∧ miSpecial [] [] ∧
+    ¬ miSpecial [0, 0] [0, 1] := by decide +kernel
+
+/-- the hypotheses of `nmi_textbook_unfloored` are satisfiable: two balanced two-cluster labellings have
+    `√(H·H') = log 2 ≥ 1/2`. -/
+example : ¬ miSpecial [0, 0, 1, 1] [0, 1, 0, 1] ∧
+    (1 : ℝ) / 10 ^ 10 ≤ Real.sqrt (shannon [0, 0, 1, 1] * shannon [0, 1, 0, 1]) := by
+  refine ⟨by decide +kernel, ?_⟩
+  have h2 : Real.log ((1 : ℝ) / 2) = -Real.log 2 := by rw [one_div, Real.log_inv]
+  have hA : shannon [0, 0, 1, 1] = Real.log 2 := by
+    have hc : classes [0, 0, 1, 1] = [0, 1] := by decide +kernel
+    unfold shannon margP
+    rw [hc]
+    norm_num [h2]
+    ring
+  have hB : shannon [0, 1, 0, 1] = Real.log 2 := by
+    have hc : classes [0, 1, 0, 1] = [0, 1] := by decide +kernel
+    unfold shannon margP
+    rw [hc]
+    norm_num [h2]
+    ring
+  have hl : (1 : ℝ) / 2 ≤ Real.log 2 := by
+    have := Real.one_sub_inv_le_log_of_pos (x := 2) (by norm_num)
+    norm_num at this ⊢
+    linarith
+  rw [hA, hB, Real.sqrt_mul_self (by linarith)]
+  have : (1 : ℝ) / 10 ^ 10 ≤ 1 / 2 := by norm_num
+  linarith
+
+/-- **nce_textbook.** Over the reals the body of `segment.nce` returns
+    `S_over = 1 − H₂(est | ref) / Z_est`, `S_under = 1 − H₂(ref | est) / Z_ref` and `util.f_measure` of the two,
+    where `Z = log₂(number of clusters)` for `marginal = False` and `Z = H(·)/log 2` (the marginal entropy in
+    bits) for `marginal = True`; a score whose normaliser is not positive is `0` (the code's convention). -/
+theorem nce_textbook (yr ye : List Nat) (h : yr.length = ye.length) (beta : ℝ) (marginal : Bool) :
+    nceIdx (α := ℝ) yr ye beta marginal =
+      (let zRef : ℝ := if marginal then shannon yr / Real.log 2 else Real.logb 2 ((classes yr).length : ℝ)
+       let zEst : ℝ := if marginal then shannon ye / Real.log 2 else Real.logb 2 ((classes ye).length : ℝ)
+       let over : ℝ := if 0 < zEst then 1 - condEntropy2 yr ye / zEst else 0
+       let under : ℝ := if 0 < zRef then 1 - condEntropy2 ye yr / zRef else 0
+       (over, under, fMeasureT over under beta)) :=
+  nceIdx_real h beta marginal
+
+/-- **nce_textbook (`marginal = False`).** `S_over = 1 − H₂(est | ref)/log₂ k_est` when the estimate has at least
+    two clusters and `0` otherwise; `S_under = 1 − H₂(ref | est)/log₂ k_ref` when the reference has at least two
+    clusters and `0` otherwise. -/
+theorem nce_over_under_textbook (yr ye : List Nat) (h : yr.length = ye.length) (beta : ℝ) :
+    (nceIdx (α := ℝ) yr ye beta false).1 =
+        (if 1 < (classes ye).length then 1 - condEntropy2 yr ye / Real.logb 2 ((classes ye).length : ℝ) else 0) ∧
+    (nceIdx (α := ℝ) yr ye beta false).2.1 =
+        (if 1 < (classes yr).length then 1 - condEntropy2 ye yr / Real.logb 2 ((classes yr).length : ℝ) else 0) := by
+  rw [nceIdx_real h]
+  simp only [Bool.false_eq_true, if_false, logb_two_natCast_pos_iff]
+  exact ⟨trivial, trivial⟩
+
+/-- **v_textbook.** For the V-measure (`marginal = True`) the two scores are `1 − H(est | ref)/H(est)` and
+    `1 − H(ref | est)/H(ref)` (entropies in the same unit), `0` when the normalising entropy is `0`. -/
+theorem v_textbook (yr ye : List Nat) (h : yr.length = ye.length) (beta : ℝ) :
+    (vmeasureIdx (α := ℝ) yr ye beta).1 =
+        (if 0 < shannon ye then 1 - (Real.log 2 * condEntropy2 yr ye) / shannon ye else 0) ∧
+    (vmeasureIdx (α := ℝ) yr ye beta).2.1 =
+        (if 0 < shannon yr then 1 - (Real.log 2 * condEntropy2 ye yr) / shannon yr else 0) := by
+  have hl2 : 0 < Real.log 2 := Real.log_pos (by norm_num)
+  have key : ∀ (H C : ℝ), (if 0 < H / Real.log 2 then 1 - C / (H / Real.log 2) else 0) =
+      (if 0 < H then 1 - (Real.log 2 * C) / H else 0) := by
+    intro H C
+    have : 0 < H / Real.log 2 ↔ 0 < H := by
+      constructor
+      · intro hq
+        have := mul_pos hq hl2
+        rwa [div_mul_cancel₀ _ (ne_of_gt hl2)] at this
+      · intro hp; exact div_pos hp hl2
+    simp only [this]
+    split
+    · field_simp
+    · rfl
+  unfold vmeasureIdx
+  rw [nceIdx_real h]
+  simp only [if_true]
+  exact ⟨key _ _, key _ _⟩
+
+/-- **v_is_mi_over_entropy.** Equivalently (chain rule) the V-measure scores are `MI/H(est)` and `MI/H(ref)`,
+    `0` when the labelling concerned has fewer than two clusters. -/
+theorem v_is_mi_over_entropy (yr ye : List Nat) (h : yr.length = ye.length) (beta : ℝ) :
+    (vmeasureIdx (α := ℝ) yr ye beta).1 =
+        (if 1 < (classes ye).length then miSum yr ye / shannon ye else 0) ∧
+    (vmeasureIdx (α := ℝ) yr ye beta).2.1 =
+        (if 1 < (classes yr).length then miSum yr ye / shannon yr else 0) :=
+  vmeasure_real h beta
+
+/-- **mi_chain_rule.** `MI(ref, est) = H(est) − H(est | ref)` (the conditional entropy converted from bits). -/
+theorem mi_chain_rule (yr ye : List Nat) (h : yr.length = ye.length) :
+    mutualInfoIdx (α := ℝ) yr ye = shannon ye - Real.log 2 * condEntropy2 yr ye := by
+  rw [mutualInfoIdx_real h, miSum_chain h]
+
+example : (classes [0, 0, 1, 1]).length = 2 ∧ (classes [0, 1, 1, 1]).length = 2 ∧ (classes [3, 3]).length = 1 := by
+  decide +kernel
+
+/-- **lgamma.** The model's `gammaln(k + 1)` (the sum `log 2 + … + log k`) is `log k!` over the reals. -/
+theorem lgamma_log_factorial (k : Nat) : lgammaSucc (α := ℝ) k = Real.log ((k.factorial : ℕ) : ℝ) :=
+  lgammaSucc_real k
+
+example : lgammaSucc (α := ℝ) 3 = Real.log 6 := by
+  rw [lgamma_log_factorial]; norm_num [Nat.factorial]
+
+/-- **emi_loop_textbook.** For arbitrary margin vectors `a`, `b` and total `n`, the triple loop of
+    `_adjusted_mutual_info_score` computes, over the reals,
+    `Σ_i Σ_j Σ_{n_ij = max(a_i+b_j−n, 1)}^{min(a_i, b_j)} (n_ij/n) · log(n·n_ij/(a_i b_j)) · Hyp(n_ij; a_i, b_j, n)`
+    with `Hyp = a_i! b_j! (n−a_i)! (n−b_j)! / (n! n_ij! (a_i−n_ij)! (b_j−n_ij)! (n−a_i−b_j+n_ij)!)`
+    (`hypFact`, the `exp` of the code's `gammaln` combination). -/
+theorem emi_loop_textbook (a b : List Nat) (n : Nat) :
+    expectedMI (α := ℝ) a b n =
+      (a.map fun ai => (b.map fun bj =>
+        ((List.range' (max (ai + bj - n) 1) (min ai bj + 1 - max (ai + bj - n) 1)).map fun (nij : ℕ) =>
+          ((nij : ℝ) / n) * Real.log ((n : ℝ) * nij / ((ai : ℝ) * bj)) * hypFact n ai bj nij).sum).sum).sum :=
+  expectedMI_real a b n
+
+/-- **hypergeometric.** Inside the loop's range the factorial quotient is the hypergeometric probability
+    `C(a,k)·C(n−a, b−k)/C(n,b)`. -/
+theorem hyp_factorial_eq_choose (n a b k : Nat) (ha : a ≤ n) (hb : b ≤ n) (hka : k ≤ a) (hkb : k ≤ b)
+    (hlo : a + b ≤ n + k) :
+    hypFact n a b k = ((a.choose k : ℝ) * ((n - a).choose (b - k) : ℝ)) / (n.choose b : ℝ) :=
+  hypFact_eq_choose ha hb hka hkb hlo
+
+example : hypFact 4 2 3 1 = 1 / 2 ∧ ((Nat.choose 2 1 : ℝ) * (Nat.choose 2 2 : ℝ)) / (Nat.choose 4 3 : ℝ) = 1 / 2 := by
+  constructor
+  · unfold hypFact; norm_num [Nat.factorial]
+  · norm_num [Nat.choose]
+
+/-- **emi_textbook.** On the margins of the contingency table of two equally long label sequences the loop is
+    the expected mutual information under the hypergeometric (random permutation) model:
+    `Σ_x Σ_y Σ_{k = max(a_x+b_y−n,1)}^{min(a_x,b_y)} (k/n) log(n k/(a_x b_y)) · C(a_x,k) C(n−a_x, b_y−k) / C(n, b_y)`. -/
+theorem emi_textbook (yr ye : List Nat) (h : yr.length = ye.length) :
+    expectedMI (α := ℝ) (rowSums (contingency yr ye)) (colSums (contingency yr ye) (classes ye).length)
+        yr.length =
+      ((classes yr).map fun x => ((classes ye).map fun y =>
+        ∑ k ∈ Finset.Icc (max (yr.count x + ye.count y - yr.length) 1) (min (yr.count x) (ye.count y)),
+          ((k : ℝ) / yr.length) * Real.log ((yr.length : ℝ) * k / ((yr.count x : ℝ) * (ye.count y : ℝ))) *
+            ((((yr.count x).choose k : ℕ) : ℝ) * (((yr.length - yr.count x).choose (ye.count y - k) : ℕ) : ℝ) /
+              ((yr.length.choose (ye.count y) : ℕ) : ℝ))).sum).sum :=
+  expectedMI_table h
+
+/-- **ami_textbook.** Outside the early return, `_adjusted_mutual_info_score` over the reals is
+    `(MI − E[MI]) / (max(H(ref), H(est)) − E[MI])` with the textbook MI, Shannon entropies and the
+    hypergeometric expectation `emiText` (`emi_textbook`). -/
+theorem ami_textbook (yr ye : List Nat) (h : yr.length = ye.length) (hs : ¬ miSpecial yr ye) :
+    (amiIdx (α := ℝ) yr ye).1 =
+      (miSum yr ye - emiText yr ye) / (max (shannon yr) (shannon ye) - emiText yr ye) := by
+  rw [amiIdx_real h hs]
+
+example : rowSums (contingency [0, 0, 1, 1] [0, 1, 1, 1]) = [2, 2] ∧
+    colSums (contingency [0, 0, 1, 1] [0, 1, 1, 1]) 2 = [1, 3] := by decide +kernel
 
 end Mir.C16
